@@ -18,8 +18,9 @@
    name last): Go's pointer tree with "addChild replaces the whole subtree" is "remove every entry
    whose key has this key as a suffix".
 
-   Alphabet: all byte strings except: "<?", "<!", ':' or a byte >= 128 in a tag name, attributes (those are
-   Unmod). Tags <name>, </name>, <name/> with blanks after the name; names [A-Za-z_][A-Za-z0-9_.-]*; text of any
+   Alphabet: all byte strings except those containing a directive "<!x", the declaration "<?xml", ':' or a byte
+   >= 128 in a tag or PI name, or attributes (those are Unmod). Tags <name>, </name>, <name/> with blanks after the
+   name; names [A-Za-z_][A-Za-z0-9_.-]*; comments <!-- -->, CDATA sections, processing instructions; text of any
    bytes: the five predefined entities, numeric entities (UTF-8 encoded, surrogates as U+FFFD), CR / CRLF
    normalisation, and the end-of-run check: valid UTF-8 without U+FFFE / U+FFFF, no control characters. *)
 From Coq Require Import List NArith ZArith Bool.
@@ -132,7 +133,8 @@ Inductive status := Clean | Failed | Unmod.
 
 Inductive lmode :=
 | MText | MEnt (raw : bytes) | MLt | MStartName (n : bytes) | MStartWs (n : bytes) | MSlash (n : bytes)
-| MLtSlash | MEndName (n : bytes) | MEndWs (n : bytes) | MJunk.
+| MLtSlash | MEndName (n : bytes) | MEndWs (n : bytes) | MJunk
+| MBang | MBangDash | MComment (p q : N) | MCdataOpen (i : nat) | MCdata | MPiName (n : bytes) | MPi (q : N).
 
 Record lstate := { mode : lmode; txt : bytes (* reversed *); b0 : N; b1 : N; out : list token (* reversed *); st : status }.
 
@@ -169,6 +171,19 @@ Definition text_step (x : lstate) (c : N) : lstate :=
 
 Definition junk (s : status) (x : lstate) : lstate := set_mode MJunk (mark s x).
 
+(* one byte of Decoder.text(-1, true), the body of <![CDATA[ ... ]]> : no markup, no entities; the same CR handling and
+   end-of-run checks; the data without the closing "]]" is delivered as CharData *)
+Definition drop2 (x : lstate) : lstate :=
+  {| mode := mode x; txt := tl (tl (txt x)); b0 := b0 x; b1 := b1 x; out := out x; st := st x |}.
+Definition cdata_step (x : lstate) (c : N) : lstate :=
+  if (b0 x =? c_rb) && (b1 x =? c_rb) && (c =? c_gt) then set_mode MText (flush (drop2 x))
+  else if c =? c_cr then shift c (put c_nl x)
+  else if (b1 x =? c_cr) && (c =? c_nl) then shift c x
+  else shift c (put c (if is_ctrl c then mark Failed x else x)).
+Definition s_cdata : bytes := [67; 68; 65; 84; 65; 91].     (* CDATA[ *)
+Definition s_xml : bytes := [120; 109; 108].
+Definition c_dash := 45. Definition c_lb := 91.
+
 Definition lex_step (x : lstate) (c : N) : lstate :=
   match mode x with
   | MText => text_step x c
@@ -183,7 +198,9 @@ Definition lex_step (x : lstate) (c : N) : lstate :=
       else text_step (reset_b (set_mode MText (puts (c_amp :: frev raw) (mark Failed x)))) c
   | MLt =>
       if c =? c_slash then set_mode MLtSlash x
-      else if (c =? c_qm) || (c =? c_bang) || (c =? c_colon) || (128 <=? c) then junk Unmod x
+      else if c =? c_qm then set_mode (MPiName []) x
+      else if c =? c_bang then set_mode MBang x
+      else if (c =? c_colon) || (128 <=? c) then junk Unmod x
       else if is_name_start c then set_mode (MStartName [c]) x
       else text_step (set_mode MText (put c_lt (mark Failed x))) c
   | MStartName n =>
@@ -216,6 +233,29 @@ Definition lex_step (x : lstate) (c : N) : lstate :=
       else if c =? c_gt then emit [TEnd n] x
       else junk Failed x
   | MJunk => if c =? c_gt then emit [] x else x
+  (* <!-- comment --> : "--" must be followed by '>' ; the content is not checked *)
+  | MBang => if c =? c_dash then set_mode MBangDash x
+             else if c =? c_lb then set_mode (MCdataOpen 0) x
+             else junk Unmod x                                   (* a directive *)
+  | MBangDash => if c =? c_dash then set_mode (MComment 0 0) x else junk Failed x
+  | MComment p q => if (p =? c_dash) && (q =? c_dash)
+                    then (if c =? c_gt then emit [] x else junk Failed x)
+                    else set_mode (MComment q c) x
+  | MCdataOpen i => if c =? nth i s_cdata 0
+                    then (if (i =? 5)%nat then set_mode MCdata (reset_b x) else set_mode (MCdataOpen (S i)) x)
+                    else junk Failed x
+  | MCdata => cdata_step x c
+  (* <?target content?> : the target is a name (':' allowed); target "xml" is outside the model *)
+  | MPiName n =>
+      if is_name_char c || (c =? c_colon) then set_mode (MPiName (c :: n)) x
+      else if 128 <=? c then junk Unmod x
+      else match frev n with
+           | [] => junk Failed x
+           | f :: _ => if negb (is_name_start f || (f =? c_colon)) then junk Failed x
+                       else if bytes_eqb (frev n) s_xml then junk Unmod x
+                       else set_mode (MPi c) x
+           end
+  | MPi q => if (q =? c_qm) && (c =? c_gt) then emit [] x else set_mode (MPi c) x
   end.
 
 Definition lex_init : lstate := {| mode := MText; txt := []; b0 := 0; b1 := 0; out := []; st := Clean |}.
